@@ -66,10 +66,11 @@ type Reach struct {
 	facts   Facts
 	barrier func(ssa.Instruction) bool
 	// from[b] = lowest instruction index from which block b was entered (-1: not reached)
-	from  []int
-	edge  map[[2]int]bool
-	memo  map[ssa.Value]Abs
-	inprg map[ssa.Value]bool
+	from   []int
+	edge   map[[2]int]bool
+	memo   map[ssa.Value]Abs
+	inprg  map[ssa.Value]bool
+	inEdge map[ssa.Value]bool
 	// EdgeFacts lets a rule assume a fact only along a given CFG edge (branch outcome).
 }
 
@@ -277,6 +278,24 @@ func (r *Reach) eval(v ssa.Value) Abs {
 				continue
 			}
 			e := r.Eval(v.Edges[i])
+			if (e == Unknown || e == Bottom) && !r.inEdge[v] {
+				// what is known about the incoming value where it comes from: the branch outcomes of that arm
+				if r.inEdge == nil {
+					r.inEdge = map[ssa.Value]bool{}
+				}
+				r.inEdge[v] = true
+				gs := blockGuards(p, 3)
+				if pi, ok := p.Instrs[len(p.Instrs)-1].(*ssa.If); ok && len(p.Succs) == 2 && p.Succs[0] != p.Succs[1] {
+					pc, neg := StripNot(pi.Cond)
+					t := p.Succs[0] == b
+					if neg {
+						t = !t
+					}
+					gs = append(gs, Guard{Cond: pc, Truth: t, If: pi})
+				}
+				e = r.evalGuarded(v.Edges[i], gs)
+				delete(r.inEdge, v)
+			}
 			res = meet(res, e)
 			if res == Unknown {
 				return Unknown
@@ -346,11 +365,15 @@ var nonNilConstructors = map[string]bool{
 // EvalAt evaluates v at instruction at: in addition to Eval it uses the branch outcomes that
 // dominate the instruction (v == nil / v != nil / v / !v tests of the same SSA value).
 func (r *Reach) EvalAt(v ssa.Value, at ssa.Instruction) Abs {
+	return r.evalGuarded(v, Guards(at))
+}
+
+func (r *Reach) evalGuarded(v ssa.Value, guards []Guard) Abs {
 	a := r.Eval(v)
 	if a != Unknown && a != Bottom {
 		return a
 	}
-	for _, g := range Guards(at) {
+	for _, g := range guards {
 		if g.Cond == v {
 			if g.Truth {
 				return True
@@ -607,6 +630,20 @@ func ReturnAlts(fn *ssa.Function) []RetAlt {
 }
 
 func expandAlt(a RetAlt, at *ssa.BasicBlock, depth int, out *[]RetAlt) {
+	expandAltF(a, at, depth, out, nil)
+}
+
+// Alts enumerates the alternatives of one return that are possible on the explored paths (merges are followed through
+// executable edges only).
+func (r *Reach) Alts(ret *ssa.Return) []RetAlt {
+	var out []RetAlt
+	b := ret.Block()
+	expandAltF(RetAlt{Ret: ret, Results: append([]ssa.Value{}, ret.Results...), Guards: BlockGuards(b), Block: b}, b, 0, &out,
+		func(pred, blk *ssa.BasicBlock) bool { return r.edge[[2]int{pred.Index, blk.Index}] })
+	return out
+}
+
+func expandAltF(a RetAlt, at *ssa.BasicBlock, depth int, out *[]RetAlt, edgeOK func(pred, blk *ssa.BasicBlock) bool) {
 	// phis of block `at` among the results?
 	has := false
 	for _, r := range a.Results {
@@ -614,11 +651,27 @@ func expandAlt(a RetAlt, at *ssa.BasicBlock, depth int, out *[]RetAlt) {
 			has = true
 		}
 	}
-	if !has || depth > 3 || len(at.Preds) == 0 {
+	// a pure merge block at the exit (only merges and the return itself, several ways in): what early returns look like
+	// after a body was wrapped or inlined ("result = x; break" arms jumping to one "return result")
+	pureMerge := false
+	if !has && depth <= 3 && len(at.Preds) >= 2 && at == a.Ret.Block() {
+		pureMerge = true
+		for _, in := range at.Instrs {
+			switch in.(type) {
+			case *ssa.Phi, *ssa.Return, *ssa.DebugRef:
+			default:
+				pureMerge = false
+			}
+		}
+	}
+	if (!has && !pureMerge) || depth > 3 || len(at.Preds) == 0 {
 		forkOnGuardPhi(a, depth, out)
 		return
 	}
 	for i, pred := range at.Preds {
+		if edgeOK != nil && !edgeOK(pred, at) {
+			continue
+		}
 		n := RetAlt{Ret: a.Ret, Block: pred}
 		for _, r := range a.Results {
 			if p, ok := r.(*ssa.Phi); ok && p.Block() == at {
@@ -638,7 +691,7 @@ func expandAlt(a RetAlt, at *ssa.BasicBlock, depth int, out *[]RetAlt) {
 			n.Guards = append(n.Guards, Guard{Cond: pc, Truth: t, If: pi})
 			n.Guards = append(n.Guards, threadPhi(pc, t, pi, 1)...)
 		}
-		expandAlt(n, pred, depth+1, out)
+		expandAltF(n, pred, depth+1, out, edgeOK)
 	}
 }
 
@@ -695,4 +748,34 @@ func forkOnGuardPhi(a RetAlt, depth int, out *[]RetAlt) {
 		return
 	}
 	*out = append(*out, a)
+}
+
+// Values returns the values v can stand for on the explored paths: merges are resolved through the executable
+// incoming edges only (so "r = a; if c { r = b }; return r" yields {a, b}, and just {b} when c is assumed true).
+func (r *Reach) Values(v ssa.Value) []ssa.Value {
+	seen := map[ssa.Value]bool{}
+	var out []ssa.Value
+	var walk func(v ssa.Value, d int)
+	walk = func(v ssa.Value, d int) {
+		if seen[v] {
+			return
+		}
+		seen[v] = true
+		if p, ok := v.(*ssa.Phi); ok && d < 8 {
+			b := p.Block()
+			any := false
+			for i, pr := range b.Preds {
+				if r.edge[[2]int{pr.Index, b.Index}] {
+					any = true
+					walk(p.Edges[i], d+1)
+				}
+			}
+			if any {
+				return
+			}
+		}
+		out = append(out, v)
+	}
+	walk(v, 0)
+	return out
 }
